@@ -183,6 +183,12 @@ func c1Grammar(c *Ctx, rule string) {
 						}
 						d := st.Desc(args[1])
 						src := resolve(st, args[1])
+						if n, known := st.IsNil(args[1]); known && n {
+							return "" // a nil slice: nothing is written (cloneWith(nil))
+						}
+						if k, isC := src.(*ssa.Const); isC && k.Value == nil {
+							return ""
+						}
 						switch {
 						case strings.HasSuffix(d, ".LineEnding"):
 							return "L"
